@@ -91,7 +91,9 @@ def _run_chunk(chunk):
             invocations = [(['--num-processes', str(rnd.choice([1, 2, 3, 4]))], 'plain'),
                            (['--num-processes', str(rnd.choice([2, 3])), '--repeat', '2'], 'repeat'),
                            (['--num-processes', '2', '--suite', 'a'], 'suite'),
-                           (['--num-processes', '3', '--slice', '1/2'], 'slice1'), (['--num-processes', '3', '--slice', '2/2'], 'slice2')]
+                           (['--num-processes', '3', '--slice', '1/2'], 'slice1'), (['--num-processes', '3', '--slice', '2/2'], 'slice2'),
+                           # test-name arguments whose patterns overlap (a name, a glob, the project-qualified spelling): still once each
+                           (['--num-processes', '2', tests[0]['name'], 't*', 'tests:' + tests[-1]['name']], 'names')]
             sliced = {}
             for extra, kind in invocations:
                 shutil.rmtree(logdir, ignore_errors=True)
@@ -187,7 +189,7 @@ def run(REG, tier, seed, jobs):
     # the schedule is timing sensitive: at most 4 projects at a time, so that the machine is not oversubscribed
     ev, nt, fails = pmap(_run_chunk, chunked(iter(seeds), 1), min(jobs, 4))
     return {'parts': [{'name': 'C12/bounded/real-meson-test-runs', 'function': 'meson test --no-rebuild (real scheduler, subprocesses, loggers)',
-                       'bound': f'{n} generated test sets of 3-8 tests (three in ten of the shape: an early long parallel test, more short parallel tests than job slots, then a non-parallel one; parallel/serial, priorities, durations 20 ms - 0.7 s, exit 0/1/3/77/99, should_fail, a timeout, some of them exiting with their normal status when terminated) x 5 invocations (--num-processes 1-4, --repeat 2, --suite, --slice 1/2 and 2/2)',
+                       'bound': f'{n} generated test sets of 3-8 tests (three in ten of the shape: an early long parallel test, more short parallel tests than job slots, then a non-parallel one; parallel/serial, priorities, durations 20 ms - 0.7 s, exit 0/1/3/77/99, should_fail, a timeout, some of them exiting with their normal status when terminated) x 6 invocations (overlapping test-name arguments, --num-processes 1-4, --repeat 2, --suite, --slice 1/2 and 2/2)',
                        'evaluations': ev, 'distinct_nontrivial': nt, 'rule': 'every invocation', 'exhaustive': False, 'failures': fails}]}
 
 
